@@ -815,12 +815,16 @@ func (ex *Exec) ufBytes(st *State, args []Value, injective bool) Value {
 			if ex.ufApps == nil {
 				ex.ufApps = map[string][]ufApp{}
 			}
-			for _, p := range ex.ufApps[full] {
-				if p.in != in {
+			// injective over all inputs of the named function: applications at another input width have different
+			// inputs by construction, so their outputs differ as well
+			for _, p := range ex.ufApps[name] {
+				if p.in.W != in.W {
+					st.assume(Not(Eq(p.out, o)))
+				} else if p.in != in {
 					st.assume(Or(Eq(p.in, in), Not(Eq(p.out, o))))
 				}
 			}
-			ex.ufApps[full] = append(ex.ufApps[full], ufApp{in, o})
+			ex.ufApps[name] = append(ex.ufApps[name], ufApp{in, o})
 		}
 		if out == nil {
 			out = o
